@@ -22,7 +22,7 @@ from fractions import Fraction
 import numpy as np
 
 PROP = 'C19'
-TARGETS = ['T12', 'T13a', 'T13c', 'T19a', 'T19b', 'T19s', 'T19m', 'T19l']
+TARGETS = ['T12', 'T13a', 'T13c', 'T13n', 'T19a', 'T19b', 'T19s', 'T19m', 'T19l', 'T19t', 'T19q']
 LEAN_MODULES = ['HdVerif.Props.C19']
 MODEL_MODULES = ['HdVerif.Model.PMap']
 NAMESPACE = 'HdVerif.C19'
